@@ -219,6 +219,8 @@ pub(crate) fn run<'tcx>(
 
                     relative_import_path: import_path.clone(),
                     module_name: module_name.clone(),
+
+                    constructing: Vec::new(),
                 };
 
                 ctx.evaluate(type_name.clone(), method);
